@@ -135,6 +135,7 @@ typedef struct { int r, c, w; word *d; } bm_t;
 static bm_t bm_new(int r, int c) { bm_t b = { r, c, (c + 63) / 64, NULL }; b.d = (word *)calloc((size_t)(r ? r : 1) * (size_t)(b.w ? b.w : 1), 8); return b; }
 static void bm_free(bm_t *b) { free(b->d); b->d = NULL; }
 
+int gen_fresh_world_has_zero_surroundings; /* set by the hist engine: in its world 0 a view lives in an all-zero parent */
 uint64_t gen_world_seed; /* 0: "fresh" world (junk = zeros / identity); else junk content is drawn from it */
 void gen_fill(mzd_t *M, const char *gen, long p, uint64_t seed) {
   if (!M || M->nrows == 0 || M->ncols == 0) return;
@@ -384,18 +385,21 @@ static int op_addsqr(ctx_t *c, const long *a) { /* C A cutoff : mzd_addmul(C, A,
   if (!C) set_result(c, a[0], R);
   return OP_OK;
 }
-static int op_djb(ctx_t *c, const long *a) { /* C A B : C = A*B through a compiled DJB map; C must be empty */
+static int op_djb(ctx_t *c, const long *a) { /* C A B mode : C = A*B through a compiled DJB map.  mode&1: compile A itself (consumed), else a copy; mode&2: C is supplied */
   mzd_t *A = MAT(a[1]), *B = MAT(a[2]);
-  REQ(ISREG(a[0]) && !c->m[a[0]] && A && B && A->ncols == B->nrows);
+  REQ(ISREG(a[0]) && A && B && A->ncols == B->nrows);
   REQ(A->nrows > 0 && A->ncols > 0 && B->ncols > 0);
-  mzd_t *Ac = L->mzd_copy(NULL, A);
+  mzd_t *C = c->m[a[0]];
+  if (a[3] & 2) REQ(C && C->nrows == A->nrows && C->ncols == B->ncols && !overlaps_reg(c, a[0], a[1]) && !overlaps_reg(c, a[0], a[2]));
+  else REQ(!C);
+  mzd_t *Ac = (a[3] & 1) ? A : L->mzd_copy(NULL, A);
   djb_t *z = L->djb_compile(Ac);
-  mzd_t *C = L->mzd_init(A->nrows, B->ncols);
+  if (!C) C = L->mzd_init(A->nrows, B->ncols);
   L->djb_apply_mzd(z, C, B);
   if (z->length < 200) L->djb_print(z); /* to stdout, which the run discards */
   L->m4shim_djb_free(z);
-  L->mzd_free(Ac);
-  set_result(c, a[0], C);
+  if (!(a[3] & 1)) L->mzd_free(Ac);
+  if (!(a[3] & 2)) set_result(c, a[0], C);
   return OP_OK;
 }
 
@@ -893,7 +897,7 @@ const opdesc_t op_table[] = {
   { "addmul_mp", op_addmul_mp, 4, "C A B cutoff" },
   { "sqr", op_sqr, 3, "C A cutoff" },
   { "addsqr", op_addsqr, 3, "C A cutoff" },
-  { "djb", op_djb, 3, "C A B" },
+  { "djb", op_djb, 4, "C A B mode" },
   { "ech_naive", op_ech_naive, 2, "A full" },
   { "ech_m4ri", op_ech_m4ri, 3, "A full k" },
   { "ech_pluq", op_ech_pluq, 2, "A full" },
@@ -1001,7 +1005,7 @@ int prog_exec_line(ctx_t *c, const char *line) {
     long r = atol(w[1]), m = atol(w[2]), nn = atol(w[3]), r0 = atol(w[7]), c0w = atol(w[8]), er = atol(w[9]), ec = atol(w[10]);
     if (!ISREG(r) || c->m[r] || m < 1 || nn < 1 || m > 70000 || nn > 70000 || (double)m * (double)nn > 3.0e8 || r0 < 0 || c0w < 0 || er < 0 || ec < 0 || r0 > 64 || c0w > 8 || er > 64 || ec > 200) { c->skipped = 1; return 1; }
     mzd_t *P = Lb->mzd_init((rci_t)(m + r0 + er), (rci_t)(c0w * 64 + nn + ec));
-    gen_fill(P, "rand", 128, strtoull(w[6], NULL, 10) ^ 0x77696e646f77ULL ^ sm64_mix(gen_world_seed)); /* what surrounds the view is no operand value: it differs from world to world (the fresh world has gen_world_seed 0) */
+    if (gen_world_seed || !gen_fresh_world_has_zero_surroundings) gen_fill(P, "rand", 128, strtoull(w[6], NULL, 10) ^ 0x77696e646f77ULL ^ sm64_mix(gen_world_seed)); /* the fresh world (seed 0) keeps the zero parent: an outcome that uses the surroundings at all then differs between worlds, even when every non-zero surrounding would give the same (wrong) answer */ /* what surrounds the view is no operand value: it differs from world to world (the fresh world has gen_world_seed 0) */
     c->hid[r] = P;
     c->m[r] = Lb->mzd_init_window(P, (rci_t)r0, (rci_t)(c0w * 64), (rci_t)(r0 + m), (rci_t)(c0w * 64 + nn));
     c->parent[r] = NREG + (int)r;
